@@ -615,6 +615,10 @@ def rule_memo(c, prog, R="C02.memo"):
 
 
 def run(c, prog):
+    from . import C16 as _C16, C15 as _C15
+    from sa import db as _dbm
+    _C16.rule_sername(core.Alias(c, "C02"), prog, _dbm.Database())     # two canonical properties written under one element name: one is lost / renamed on read-back
+    _C15.rule_sites(core.Alias(c, "C02"), prog)     # a legacy value the writer could not migrate is written as it is; the reader must then not reject the file
     rule_memo(c, prog)
     common.rule_configured_db(c, prog, "C02.cfgdb", ("rbx_xml",))
     common.rule_builders(c, prog, "C02.opts", ("rbx_xml",))
